@@ -50,7 +50,7 @@ def action(futures, flips=False, oversize=False, spaced=1, adds=True):
     return st.one_of(*kinds)
 
 
-def row(futures, flips=False, oversize=False, boundary=False, spaced=1, adds=True, max_points=3, busy=False, resting=False):
+def row(futures, flips=False, oversize=False, boundary=False, spaced=1, adds=True, max_points=3, busy=False, resting=False, hold=False):
     act = st.sampled_from((['none'] * (2 if busy else 5)) + ['long'] * 3 + (['short'] * 3 if futures else []))
     lad = ladder(oversize=oversize, spaced=spaced)
     a = action(futures, flips, oversize, spaced, adds)
@@ -59,9 +59,9 @@ def row(futures, flips=False, oversize=False, boundary=False, spaced=1, adds=Tru
         act=act, entry=(st.one_of(entry_points(max_points, boundary=boundary), entry_points(2, offs=(25, 90))) if resting
                         else entry_points(max_points, boundary=boundary)),
         shape=st.sampled_from(['list', 'list', 'tuple', 'lists']),
-        exits_at=st.sampled_from(['go', 'open', 'open', 'none'] if futures else ['open', 'open', 'none']),
+        exits_at=st.sampled_from(['none', 'none', 'none', 'open'] if hold else (['go', 'open', 'open', 'none'] if futures else ['open', 'open', 'none'])),
         sl=st.one_of(st.none(), lad), tp=st.one_of(st.none(), lad),
-        upd=maybe(a, 4), on_red=maybe(a, 4), on_inc=maybe(a, 4),
+        upd=maybe(a, 30 if hold else 4), on_red=maybe(a, 4), on_inc=maybe(a, 4),
         cancel=st.sampled_from([True, False, False, False] if resting else [True, True, True, False]),
     ))
 
